@@ -34,6 +34,7 @@ def run(ctx):
     ctx.rule("P10", "TransactionInner::{local_map_op, local_list_op}: after the op is recorded a put patch can follow (the conflict-resolving put of the unchanged winner clears the view's conflict flag)")
     ctx.rule("P11", "ValueState::{map_process, list_flush}: a bare Conflict patch (flag_conflict) is logged only downstream of a not-`deleted` edge of the doc value and of no `deleted` edge (when the merge deletes what was on display, the newcomer is put)")
     ctx.rule("P12", "a change of view re-numbers the session's patch log first: PatchLog::finish_current_view calls migrate_actors on every path (not only when events are recorded), and AutoCommit::patch_to logs the new view (DiffIter::log) only after finish_current_view")
+    ctx.rule("P13", "numbering discipline of a patch log that outlives the call: before a whole state / a diff is logged into a PatchLog that is a parameter or a field (not built in the same function), and before PatchLog::make_patches turns recorded ids into external ids, the log's actor table is brought up to date (migrate_actors, or finish_current_view / begin_transaction which do it)")
     ctx.rule("P2", "C15 R7-pair re-run")
     ctx.rule("P3", "C24 E6 (delete_seq lengths) and E4 (Untangler index steps) re-run")
     f = ctx.facts()
@@ -121,6 +122,7 @@ def run(ctx):
     check_conflict_resolution_logged(ctx, f)
     check_conflict_vs_deleted(ctx, f)
     check_view_change_migrates(ctx, f)
+    check_log_numbering(ctx, f)
     C15.check_expose_pair(ctx, f)
     C24.check_delete_lengths(ctx, f)
     C24.check_untangler_index(ctx, f)
@@ -358,3 +360,46 @@ def check_view_change_migrates(ctx, f):
         ok2 = any(pb.block_dominates(fb, bi) for fb in fins)
         ctx.ob("P12", k + "|after finish_current_view", ok2, t["sp"], "the previous view is finished (and the log re-numbered) first" if ok2 else
                "the new view is logged without finishing the previous one: its events mix with the old view's and are numbered against a stale actor table")
+
+
+def check_log_numbering(ctx, f):
+    SYNCERS = ("PatchLog::migrate_actors", "PatchLog::finish_current_view", "PatchLog::begin_transaction")
+    n = 0
+    for p, r in sorted(f.fns.items()):
+        if r["ckey"] != ("automerge", "lib") or "{closure" in p:
+            continue
+        np_ = norm_fn(p)
+        if not (np_.startswith("automerge::automerge::Automerge::") or np_.startswith("automerge::autocommit::AutoCommit::")):
+            continue
+        if np_.endswith("Automerge::log_current_state"):
+            continue                # the wrapper: the obligation is its callers'
+        b = cfg.body(r)
+        prods = []
+        for bi, t in b.calls():
+            c = callee(t) or ""
+            if c.endswith("Automerge::log_current_state") or c.endswith("iter::doc::DiffIter::log"):
+                la = [a for a, ty in zip(t.get("args", []), t.get("argtys", [])) if "PatchLog" in ty]
+                if la:
+                    prods.append((bi, t, la[0]))
+        for k, (bi, t, la) in util.ordinal_keys(prods, lambda it, nm=np_.split("::")[-1]: "%s|state logged" % nm):
+            pv = b.provenance(la, through_calls=True)
+            fresh = any((norm_fn(c) or "").endswith(("PatchLog::active", "PatchLog::new", "PatchLog::inactive")) for c in pv.callees())
+            outlives = (not fresh) and (bool(pv.params) or any(b.origin(l, pr)[0] == 1 for l, pr in pv.places))
+            if not outlives:
+                continue
+            n += 1
+            ctx.analysed_fns.add(p)
+            sync = [sb for sb, st in b.calls() if (callee(st) or "").endswith(SYNCERS) and b.block_dominates(sb, bi)]
+            ctx.ob("P13", k, bool(sync), t["sp"], "the log's actor table is brought up to date first" if sync else
+                   "a state is logged into a patch log that outlives the call without bringing the log's actor table up to date: the events are numbered by the document's table, and the next actor inserted in front of it shifts (or fails to shift) them — patches name objects under the wrong actor")
+    ctx.floor("states logged into a patch log that outlives the call", n, 2)
+    MP = [p for p in f.fns if norm_fn(p) == "automerge::patches::patch_log::PatchLog::make_patches"]
+    if len(MP) != 1:
+        raise facts.AnchorMissing("PatchLog::make_patches")
+    b = cfg.body(f.fns[MP[0]])
+    ctx.analysed_fns.add(MP[0])
+    cur = [bi for bi, t in b.calls() if (callee(t) or "").endswith("PatchLog::make_current_patches")]
+    mig = [bi for bi, t in b.calls() if (callee(t) or "").endswith("PatchLog::migrate_actors")]
+    ok = bool(cur) and all(any(b.block_dominates(m, c) for m in mig) for c in cur)
+    ctx.ob("P13", "make_patches|ids resolved against a table the log has seen", ok, b.rec["sp"], "migrate_actors before the ids are resolved" if ok else
+           "make_patches resolves the recorded internal ids with the document's current actor table without migrating the log: after an actor arrived through a call that did not see the log, patches name objects under the wrong actor")
